@@ -28,6 +28,8 @@ Lemma est_eqb_eq a b : est_eqb a b = true -> a = b.
 Proof. destruct a, b; simpl; intro; try discriminate; reflexivity. Qed.
 Lemma errk_eqb_eq a b : errk_eqb a b = true -> a = b.
 Proof. destruct a, b; simpl; intro; try discriminate; reflexivity. Qed.
+Lemma updk_eqb_eq a b : updk_eqb a b = true -> a = b.
+Proof. destruct a, b; simpl; intro; try discriminate; reflexivity. Qed.
 Lemma fres_eqb_eq a b : fres_eqb a b = true -> a = b.
 Proof. destruct a, b; simpl; intro E; try discriminate; try reflexivity. apply errk_eqb_eq in E. now subst. Qed.
 Lemma ev_eqb_eq a b : ev_eqb a b = true -> a = b.
@@ -50,6 +52,7 @@ Proof.
   | H : option_eqb errk_eqb _ _ = true |- _ => apply (option_eqb_eq _ errk_eqb_eq) in H
   | H : option_eqb Bool.eqb _ _ = true |- _ => apply (option_eqb_eq _ eqb_prop) in H
   | H : option_eqb fres_eqb _ _ = true |- _ => apply (option_eqb_eq _ fres_eqb_eq) in H
+  | H : option_eqb updk_eqb _ _ = true |- _ => apply (option_eqb_eq _ updk_eqb_eq) in H
   | H : option_eqb N.eqb _ _ = true |- _ => apply (option_eqb_eq _ (fun x y => proj1 (N.eqb_eq x y))) in H
   | H : list_eqb ev_eqb _ _ = true |- _ => apply (list_eqb_sound _ ev_eqb_eq) in H
   end.
@@ -60,11 +63,11 @@ Qed.
 
 Definition all_labs : list lab :=
   [LNew HAccept; LNew HReject; LNew HPause; LNew HErr; LReqCancel; LReqUpdate UOk; LReqUpdate UExt; LReqUpdate UErr;
-   LReqUpdate UUnpause; LApiPause; LApiUnpause; LApiCancel; LApiUpdate; LGate GCont; LGate GPause; LGate GErr;
+   LReqUpdate UUnpause; LReqUpdate UExtErr; LUpdStall UOk; LUpdStall UExt; LUpdStall UErr; LUpdStall UUnpause; LUpdStall UExtErr; LMemFree; LApiPause; LApiUnpause; LApiCancel; LApiUpdate; LGate GCont; LGate GPause; LGate GErr;
    LGateHold GCont; LGateHold GPause; LGateHold GErr; LFinish; LArmStart; LStart; LSend true; LSend false; LHold; LRelease].
 
 Lemma all_labs_complete l : In l all_labs.
-Proof. destruct l as [[]| |[]| | | | |[]|[]| | | |[]| |]; simpl; tauto. Qed.
+Proof. destruct l as [h| |u| | | | |g|g| | | |u| |b| |]; try destruct h; try destruct u; try destruct g; try destruct b; simpl; tauto. Qed.
 
 Definition all_ords : list N := [0; 1; 2; 3; 4; 5].
 
@@ -79,6 +82,7 @@ Definition hash (s : state) : positive :=
      match sig_err s with None => 0 | Some ENet => 1 | Some EReqCancel => 2 | Some EApiCancel => 3 | Some EHook => 4 end;
      tq s; bit (held s); bit (arm s) + 2 * bit (stk s); match gate s with None => 0 | Some false => 1 | Some true => 2 end; bit (closed s);
      match fin s with None => 0 | Some FNil => 1 | Some FPaused => 2 | Some (FErr _) => 3 end;
+     match stall s with None => 0 | Some UExt => 1 | Some _ => 2 end;
      match infl s with None => 0 | Some m => m mod 7 end; match pend s with None => 0 | Some m => m mod 7 end;
      unprot s; n_done s; n_net s; N.of_nat (length (evs s));
      match ent s with Some e => bit (e_uerr e) + 2 * bit (e_uext e) + 4 * bit (e_neterr e) | None => 0 end] 0).
@@ -211,11 +215,15 @@ Definition p_task (s : state) : bool :=
    the active task of a response that is not Running *)
 Definition p_exec (s : state) : bool :=
   implb (negb (gate_free s)) (st_code s =? 2) && implb (stk s) ((tq s =? 2) && negb (st_code s =? 2) && gate_free s && fin_none s).
-Definition p_safety (s : state) : bool := p_protect s && p_once s && p_neterr s && p_completing s && p_task s && p_exec s.
+(* after a network-error outcome the stream is closed and nothing of the request is in flight or queued *)
+Definition p_afternet (s : state) : bool :=
+  implb (1 <=? n_net s) (closed s && (match infl s with None => true | Some _ => false end) && (match pend s with None => true | Some _ => false end)).
+Definition stall_none (s : state) : bool := match stall s with None => true | Some _ => false end.
+Definition p_safety (s : state) : bool := p_afternet s && p_protect s && p_once s && p_neterr s && p_completing s && p_task s && p_exec s.
 
 (* QUIESCENCE: nothing parked in a block hook, no task queued or active, nothing in flight, not paused *)
 Definition quiescent (s : state) : bool :=
-  gate_free s && fin_none s && (tq s =? 0) && (match infl s with None => true | Some _ => false end) && negb (st_code s =? 3).
+  gate_free s && fin_none s && stall_none s && (tq s =? 0) && (match infl s with None => true | Some _ => false end) && negb (st_code s =? 3).
 Definition p_retired (s : state) : bool :=
   implb (seen s && quiescent s)
         (negb (has_ent s) && (nprot s =? 1) && (unprot s =? 1) && (1 <=? n_done s + n_net s) &&
@@ -241,7 +249,7 @@ Definition p_step (s : state) (lb : lab) (s' : state) : bool :=
 Definition progress_lab (s : state) : option lab :=
   match gate s with
   | Some _ => Some (LGate GCont)
-  | None => if stk s then Some LStart else
+  | None => if negb (stall_none s) then Some LMemFree else if stk s then Some LStart else
             match fin s, infl s with
             | Some _, _ => Some LFinish
             | None, Some _ => Some (LSend true)
